@@ -199,6 +199,26 @@ class Ctx:
             futs = [ex.submit(lambda kw=kw: self.tlc(**kw)) for kw in jobs]
             return [f.result() for f in futs]
 
+    def apalache(self, module, args, expect_error=False, timeout=900, note=None):
+        """Run apalache-mc check on spec/<module>.tla (symbolic, unbounded integers).  Returns True if no error was found."""
+        out = os.path.join(self.tmp, f"apalache_{len(self.tlc_runs)}")
+        cmd = ["apalache-mc", "check", f"--out-dir={out}"] + args + [module + ".tla"]
+        t = time.time()
+        try:
+            p = subprocess.run(cmd, cwd=self.specdir, stdout=subprocess.PIPE, stderr=subprocess.STDOUT, timeout=timeout, text=True)
+        except subprocess.TimeoutExpired:
+            raise MachineryError(f"apalache timed out on {module}")
+        shutil.rmtree(out, True)
+        ok = "The outcome is: NoError" in p.stdout
+        bad = "The outcome is: Error" in p.stdout
+        self.tlc_runs.append({"module": module, "note": (note or "") + " [apalache " + " ".join(args) + "]", "distinct": 0, "generated": 0, "depth": 0,
+                              "wall_s": round(time.time() - t, 2), "mode": "apalache", "outcome": "NoError" if ok else ("Error" if bad else "failed")})
+        if not ok and not bad:
+            raise MachineryError(f"apalache failed on {module}: " + p.stdout[-1500:])
+        if ok == expect_error:
+            raise MachineryError(f"apalache on {module} {args}: outcome {'NoError' if ok else 'Error'} but expected the opposite\n" + p.stdout[-1500:])
+        return ok
+
     def tlc_eval(self, module, inp=None, env=None, timeout=900, lines=False, note=None, cfg="CHECK_DEADLOCK FALSE\n"):
         """Constant-level evaluation: module has `ASSUME JsonSerialize(IOEnv.OUT_FILE, ...)` and reads
         IOEnv.IN_FILE (json, or ndjson when lines=True).  Returns the parsed OUT_FILE."""
